@@ -588,7 +588,9 @@ def check_C09(ctx, w):
             log("  first record not followed: %s" % json.dumps(recs[ll - 1])[:1500])
         ctx.extra_cov["model_drift"] = True
     # the concurrent corpus with the progress watchdog: a hang is the observation that confirms a model deadlock
-    ct = [gen.conc_test(uni, ctx.rng, i, nthreads=4, nops=3, cfgs=[(False, True), (True, True), (True, False), (False, False)]) for i in range(ctx.q(300, 4000))]
+    ct = [gen.conc_test(uni, ctx.rng, i, nthreads=4, nops=3, cfgs=[(False, True), (True, True), (True, False), (False, False)], hang=True) for i in range(ctx.q(300, 4000))]
+    for t in ct:
+        t["norecord"] = True      # results are not judged here (settings switches, calls after Close): only progress is
     for t in ct:
         t["cfg"]["thr"], t["cfg"]["tmo_ms"] = 1, 100
     shards = vlib.run_harness(binp, ct, w.sub("run-hang"), per_test_timeout="10s", max_hangs=2)
